@@ -709,7 +709,6 @@ OPEN_REWRITES = {
     'R03-2': 'forward_with_joint_poses as a table of (offset, axis, angle) and a loop filling [Pose; 6]: R03.1/R03.2 read the six chained products',
     'R04-3': 'near-normaliser as a value-returning fn applied through array::from_fn: role and call sites are read as fn(&mut f64, f64)',
     'R06-2': 'normalisation of J1..J5 in a helper returning Option<Joints>: R01.4/R02.2 read the in-place loop',
-    'R12-1': 'pose list built from an anchor list walked with windows(2): R12.5 reads the push sites of LAND / TRACE / PARK',
     'R12-2': 'flags of a Cartesian extension by split_last + extend, RRT gap by find_map: R12.5 reads the per-item flag choice',
     'R13-2': 'ancestor walk by iter::successors, path assembly by rev().chain().collect(), orientation tested on the other tree: R13.3 reads the two walks, reverse and append',
     'R17-2': 'source and target bases through orthonormal_basis(o, x, y) -> Option<Matrix3> and ok_or_else(..)?: R17.1/R17.2 read the two column triples',
